@@ -80,15 +80,18 @@ static std::vector<std::pair<std::string, std::shared_ptr<crsd>>> matrices() {
     return v;
 }
 
-struct cfg { const char *c, *r, *s; unsigned ce, ml; bool dc; };
+struct cfg { const char *c, *r, *s; unsigned ce, ml; bool dc; const char *extra = ""; };   // extra: "path=value;path=value" non-default parameters
 static boost::property_tree::ptree ptree_of(const cfg &c) {
     boost::property_tree::ptree p;
     p.put("precond.coarsening.type", c.c); p.put("precond.relax.type", c.r); p.put("solver.type", c.s);
     p.put("precond.coarse_enough", c.ce); p.put("precond.max_levels", c.ml); p.put("precond.direct_coarse", c.dc);
+    std::stringstream ss(c.extra); std::string kv;
+    while (std::getline(ss, kv, ';')) { size_t e = kv.find('='); if (e != std::string::npos) p.put(kv.substr(0, e), kv.substr(e + 1)); }
     return p;
 }
 
-struct outcome { int cls; size_t it; double res; vec x; std::string what; long long tru; };
+struct outcome { int cls; size_t it; double res; vec x; std::string what; long long tru; bool reuse_same = true; };
+static bool g_second_call = false;      // prm mode: a second solve (point source) on the same object must equal the first solve of a fresh object
 // cls: 0 converged (reported residual < tol), 1 exception, 2 reported non-converged (finite), 3 reported non-finite
 static outcome run_once(const crsd &A, const cfg &c, const vec &f) {
     outcome o; o.cls = 1; o.it = 0; o.res = 0; o.tru = 0; o.x.assign(A.nrows, 0.0);
@@ -102,6 +105,14 @@ static outcome run_once(const crsd &A, const cfg &c, const vec &f) {
         for (size_t i = 0; i < A.nrows; ++i) { long double s2 = f[i]; for (ptrdiff_t p = A.ptr[i]; p < A.ptr[i+1]; ++p) s2 -= (long double)A.val[p] * o.x[A.col[p]]; nr += s2 * s2; nf += (long double)f[i] * f[i]; }
         long double rel = sqrtl(nr / nf);
         o.tru = !std::isfinite((double)rel) ? 20000 : (rel <= 1e-20L ? -20000 : (long long)llroundl(1000 * log10l(rel)));
+        if (g_second_call) {
+            vec e(A.nrows, 0.0); e[(2 * A.nrows) / 3] = 1.0;
+            vec x2(A.nrows, 0.0), x3(A.nrows, 0.0); size_t it2 = 0, it3 = 0; double r2 = 0, r3 = 0; bool t2 = false, t3 = false;
+            try { auto q = s(e, x2); it2 = std::get<0>(q); r2 = std::get<1>(q); } catch (const std::exception &) { t2 = true; }
+            Solver fresh(A, ptree_of(c));
+            try { auto q = fresh(e, x3); it3 = std::get<0>(q); r3 = std::get<1>(q); } catch (const std::exception &) { t3 = true; }
+            o.reuse_same = t2 == t3 && it2 == it3 && std::memcmp(&r2, &r3, sizeof(double)) == 0 && std::memcmp(x2.data(), x3.data(), x2.size() * sizeof(double)) == 0;
+        }
     } catch (const std::exception &e) { o.cls = 1; o.what = e.what(); }
     return o;
 }
@@ -141,7 +152,7 @@ int main(int argc, char **argv) {
     auto mats = matrices();
     unsigned ces[] = {0u, 1u, 3000u}, mls[] = {1u, 2u, 100u};
     long count = 0;
-    for (size_t mi = 0; mi < mats.size(); ++mi) {
+    for (size_t mi = 0; mi < mats.size() && mode != "prm"; ++mi) {
         if (which != "all" && which != mats[mi].first && which != std::to_string(mi)) continue;
         const crsd &A = *mats[mi].second; int n = A.nrows;
         vec f(n); for (int i = 0; i < n; ++i) f[i] = 1.0 + 0.25 * (i % 3);
@@ -173,6 +184,55 @@ int main(int argc, char **argv) {
                 std::ostringstream ds; ds << "["; for (size_t k = 0; k < d.size(); ++k) ds << (k ? "," : "") << "[" << d[k].lo() << "," << d[k].hi() << "]"; ds << "]";
                 vr::obj j; j.str("k", "fill").str("m", mats[mi].first).str("c", c.c).str("r", c.r).str("s", c.s).i("ce", c.ce).i("ml", std::min(c.ml, 1000u)).b("dc", c.dc);
                 j.raw("d", ds.str()).ints("cls", cls);
+                vr::emit(j.done());
+            }
+        }
+    }
+    if (mode == "prm") {
+        // non-default component parameters (the cross product above uses the defaults): outcome independent of the heap
+        // contents and of an earlier construction in the same process; a second call on the object = a fresh object
+        static const cfg PSETS[] = {
+            {"smoothed_aggregation", "ilut", "bicgstab", 3, 100, true, "precond.relax.p=1.25;precond.relax.tau=1e-8"},
+            {"smoothed_aggregation", "ilut", "gmres", 3, 100, true, "precond.relax.p=1.5;precond.relax.tau=1e-3"},
+            {"aggregation", "ilut", "cg", 3, 100, false, "precond.relax.p=2.5;precond.relax.tau=1e-12"},
+            {"ruge_stuben", "ilut", "bicgstab", 3, 100, true, "precond.relax.p=0.75;precond.relax.tau=1e-2"},
+            {"ruge_stuben", "ilut", "bicgstab", 0, 1, true, "precond.relax.p=3.3;precond.relax.tau=0"},
+            {"smoothed_aggregation", "iluk", "bicgstab", 3, 100, true, "precond.relax.k=3"},
+            {"aggregation", "ilup", "gmres", 3, 100, true, "precond.relax.k=2"},
+            {"smoothed_aggregation", "chebyshev", "cg", 3, 100, true, "precond.relax.power_iters=5;precond.relax.scale=true;precond.relax.degree=3"},
+            {"smoothed_aggregation", "chebyshev", "cg", 3, 100, false, "precond.relax.power_iters=2"},
+            {"smoothed_aggregation", "spai0", "cg", 3, 100, true, "precond.coarsening.estimate_spectral_radius=true;precond.coarsening.power_iters=4"},
+            {"smoothed_aggregation", "damped_jacobi", "cg", 3, 100, true, "precond.coarsening.estimate_spectral_radius=true;precond.coarsening.power_iters=0;precond.coarsening.relax=0.7;precond.relax.damping=0.6"},
+            {"smoothed_aggregation", "spai0", "bicgstab", 3, 100, true, "precond.coarsening.aggr.eps_strong=0;precond.npre=2;precond.npost=3;precond.ncycle=2"},
+            {"aggregation", "gauss_seidel", "bicgstab", 3, 100, false, "precond.coarsening.over_interp=1;precond.coarsening.aggr.eps_strong=0.5;precond.pre_cycles=2"},
+            {"ruge_stuben", "spai1", "gmres", 3, 100, true, "precond.coarsening.eps_strong=0.5;precond.coarsening.do_trunc=false"},
+            {"ruge_stuben", "damped_jacobi", "bicgstab", 3, 100, true, "precond.coarsening.eps_strong=0.125;precond.coarsening.eps_trunc=0.5"},
+            {"smoothed_aggr_emin", "spai0", "cg", 3, 100, true, "precond.coarsening.aggr.eps_strong=0.2"},
+            {"smoothed_aggregation", "spai0", "gmres", 3, 100, true, "solver.M=2;solver.pside=left"},
+            {"smoothed_aggregation", "spai0", "lgmres", 3, 100, true, "solver.M=2;solver.K=3"},
+            {"smoothed_aggregation", "spai0", "fgmres", 3, 100, true, "solver.M=3"},
+            {"smoothed_aggregation", "ilu0", "idrs", 3, 100, true, "solver.s=1;solver.smoothing=true;solver.replacement=true"},
+            {"smoothed_aggregation", "ilu0", "idrs", 3, 100, true, "solver.s=6;solver.omega=0.9"},
+            {"smoothed_aggregation", "gauss_seidel", "bicgstabl", 3, 100, true, "solver.L=3;solver.delta=0.01;solver.convex=false"},
+            {"aggregation", "spai0", "bicgstabl", 3, 100, true, "solver.L=1;solver.pside=left"},
+            {"smoothed_aggregation", "spai0", "richardson", 3, 100, true, "solver.damping=0.8;solver.maxiter=30"},
+            {"smoothed_aggregation", "spai0", "preonly", 3, 100, true, ""},
+            {"smoothed_aggregation", "spai0", "cg", 3, 100, true, "solver.ns_search=true;solver.maxiter=7"},
+            {"smoothed_aggregation", "spai0", "bicgstab", 3, 100, true, "solver.check_after=true;solver.tol=1e-3;solver.abstol=1e-2"},
+        };
+        g_second_call = true;
+        for (size_t mi = 0; mi < mats.size(); ++mi) {
+            if (which != "all" && which != mats[mi].first) continue;
+            const crsd &A = *mats[mi].second; int n = A.nrows;
+            if (n < 5) continue;
+            vec f(n); for (int i = 0; i < n; ++i) f[i] = 1.0 + 0.25 * (i % 3);
+            for (const cfg &c : PSETS) {
+                std::vector<vr::digest> d; std::vector<int> cls; bool reuse = true;
+                for (int fm = 0; fm < 4; ++fm) { g_fill_mode = fm; dirty_heap(g); outcome o = run_once(A, c, f); g_fill_mode = -1; d.push_back(dig(o)); cls.push_back(o.cls); reuse = reuse && o.reuse_same; }
+                { g_fill_mode = 1; outcome o = run_once(A, c, f); g_fill_mode = -1; d.push_back(dig(o)); cls.push_back(o.cls); reuse = reuse && o.reuse_same; }
+                std::ostringstream ds; ds << "["; for (size_t k = 0; k < d.size(); ++k) ds << (k ? "," : "") << "[" << d[k].lo() << "," << d[k].hi() << "]"; ds << "]";
+                vr::obj j; j.str("k", "fill").str("m", mats[mi].first).str("c", c.c).str("r", c.r).str("s", c.s).i("ce", c.ce).i("ml", std::min(c.ml, 1000u)).b("dc", c.dc).str("what", "prm").str("extra", c.extra);
+                j.raw("d", ds.str()).ints("cls", cls).b("reuse", reuse);
                 vr::emit(j.done());
             }
         }
